@@ -725,6 +725,13 @@ pub fn check_pending_lifecycle(before: &TDump, after: &TDump, op: &Op, forced: &
                 }
             }
         }
+        // a waiting candidate keeps its slot until it is promoted, discarded or removed: another
+        // candidate cannot take the slot over (it would inherit the first one's deadline)
+        if let (Some(p), Some(q)) = (&b.pending, &a.pending) {
+            if p.key != q.key && !a.nodes.iter().any(|n| n.key == p.key) {
+                return Some(format!("bucket {}: a waiting pending candidate was displaced by another candidate", a.idx));
+            }
+        }
         // a pending slot is created only on a full bucket
         if b.pending.is_none() {
             if let Some(p) = &a.pending {
@@ -1017,6 +1024,11 @@ pub fn gen_case(rng: &mut Rng, pool_len: usize, focus: &str, nops: usize) -> Gen
         let v = pick_val(rng, slot_of(focus_b, 16));
         let cand_inc = rng.chance(2, 3);
         ops.push(Op::InsertOrUpdate(keys[focus_b][16], v, true, cand_inc));
+        // a second candidate arrives while the first one waits: the slot is taken
+        if rng.chance(1, 2) {
+            let v2 = pick_val(rng, slot_of(focus_b, 17));
+            ops.push(Op::InsertOrUpdate(keys[focus_b][17], v2, true, false));
+        }
         match rng.below(3) {
             0 => ops.push(Op::UpdateStatus(keys[focus_b][1 + rng.below(2) as usize], true, Some(true))),
             1 => ops.push(Op::Entry(keys[focus_b][16], Action::PendingUpdate(true, true))),
